@@ -585,8 +585,16 @@ func (vm *VM) nextCall() bool {
 			for i = i - 1; i >= 0; i-- {
 				call = vm.calls[i]
 				if call.status == deferred {
-					vm.calls[i] = vm.calls[i+1]
-					vm.calls[i].status = panicked
+					// Swap the stack of the panicked call with the stack of
+					// the deferred call, as is done when a call returns, so
+					// that the deferred call does not overwrite the registers
+					// of the panicked call.
+					panicking := vm.calls[i+1]
+					panicking.status = panicked
+					if fn := panicking.cl.fn; fn != nil {
+						vm.swapStack(&call.fp, &panicking.fp, fn.NumReg)
+					}
+					vm.calls[i] = panicking
 					if call.cl.fn != nil {
 						i++
 					}
